@@ -44,6 +44,34 @@ func (p *parkingKV) Save(key, value string) error {
 	return p.Base.Save(key, value)
 }
 
+// loadParkingKV parks the FIRST load of the safe-point key after the value has been read (a request that has read the
+// stored value but not yet compared / saved): the other schedule of the same obligation.
+type loadParkingKV struct {
+	kv.Base
+	mu      sync.Mutex
+	parked  bool
+	arrived chan struct{}
+	release chan struct{}
+}
+
+func (p *loadParkingKV) Load(key string) (string, error) {
+	v, err := p.Base.Load(key)
+	if strings.HasSuffix(key, "gc/safe_point") {
+		p.mu.Lock()
+		first := !p.parked
+		p.parked = true
+		p.mu.Unlock()
+		if first {
+			close(p.arrived)
+			select {
+			case <-p.release:
+			case <-time.After(3 * time.Second):
+			}
+		}
+	}
+	return v, err
+}
+
 type verifReplayC15 struct{}
 
 func TestVerifReplayGCSafePointRace(t *testing.T) {
@@ -96,5 +124,49 @@ func (s *verifReplayC15) TestRace(c *check.C) {
 	}
 	if got := update(0); got < ackB {
 		c.Errorf("a later request is answered %d, below the value %d acknowledged before it began", got, ackB)
+	}
+}
+
+
+func (s *verifReplayC15) TestRaceAfterLoad(c *check.C) {
+	svr, cleanup, err := NewTestServer(c)
+	c.Assert(err, check.IsNil)
+	defer cleanup()
+	mustWaitLeader(c, []*Server{svr})
+	_, err = svr.Bootstrap(context.Background(), &pdpb.BootstrapRequest{
+		Header: &pdpb.RequestHeader{ClusterId: svr.ClusterID()},
+		Store:  &metapb.Store{Id: 1, Address: "mock://verif-replay-1"},
+		Region: &metapb.Region{Id: 2, RegionEpoch: &metapb.RegionEpoch{ConfVer: 1, Version: 1}, Peers: []*metapb.Peer{{Id: 3, StoreId: 1}}},
+	})
+	c.Assert(err, check.IsNil)
+	pk := &loadParkingKV{Base: svr.storage.Base, arrived: make(chan struct{}), release: make(chan struct{})}
+	orig := svr.storage
+	svr.storage = core.NewStorage(pk)
+	defer func() { svr.storage = orig }()
+
+	update := func(v uint64) uint64 {
+		resp, err := svr.UpdateGCSafePoint(context.Background(), &pdpb.UpdateGCSafePointRequest{
+			Header: &pdpb.RequestHeader{ClusterId: svr.ClusterID()}, SafePoint: v})
+		c.Assert(err, check.IsNil)
+		return resp.GetNewSafePoint()
+	}
+	var wg sync.WaitGroup
+	wg.Add(1)
+	go func() { defer wg.Done(); update(7) }() // request A: parked right after it has read the stored value
+	<-pk.arrived
+	done := make(chan uint64, 1)
+	go func() { done <- update(10) }() // request B
+	var ackB uint64
+	select {
+	case ackB = <-done:
+	case <-time.After(4 * time.Second):
+		ackB = <-done
+	}
+	close(pk.release)
+	wg.Wait()
+	stored, err := svr.storage.LoadGCSafePoint()
+	c.Assert(err, check.IsNil)
+	if stored < ackB {
+		c.Errorf("request B was acknowledged safe point %d, but the stored safe point afterwards is %d: the GC safe point moved backwards", ackB, stored)
 	}
 }
